@@ -624,6 +624,18 @@ def handle (args : List String) (obs : String) : Option Reply := do
       let got := ((statGroups implStats).getD 6 []).getD 3 ""
       if got ≠ want then ["[C02][C19] the mean allocation count is not that of the allocator operations the recorded samples' own calls performed between their timestamps"] else []
      else []) ++
+    -- C08: a panic of the benchmarked function or of the generator, once reached, ends the run with a
+    -- panic on the calling thread (the lab reports `panic`), whichever round it happens in
+    (let reached : Bool :=
+       (match r.panic with
+        | some (t, j) => count (·.k = 'k') (traces.getD t []) > j
+        | none => false) ||
+       (match r.gpanic with
+        | some (t, id) => r.hasInputs && count (·.k = 'g') (traces.getD t []) > id
+        | none => false)
+     if reached ∧ implStats ≠ "panic" ∧ implStats ≠ "hang" then
+       ["[C08] a panic of the benchmarked function or input generator did not end the run with a panic on the calling thread"]
+     else []) ++
     -- C01: `_local` forms run on the calling thread only
     (if r.isLocal ∧ (traces.drop 1).any (!·.isEmpty) then ["[C01] a _local form ran on a pool thread"] else []) ++
     -- C03: explicit size, no time limit: calls = s * T * ceil(n/T); test mode: one call per thread; zero cases: none
